@@ -5,6 +5,7 @@ package main
 import (
 	"fmt"
 	"os"
+	"strconv"
 	"path/filepath"
 	"strings"
 	"time"
@@ -46,6 +47,11 @@ func (ctx *checkCtx) runRxp() *JobResult {
 		pat, ok := regexpPatternOf(g)
 		if !ok {
 			pat, ok = ex.foldedRegexpPattern(g)
+		}
+		if !ok {
+			// not a MustCompile of constants: ask the package itself (its
+			// initialiser runs in a test binary and prints the pattern)
+			pat, ok = runtimeRegexpPattern(ctx, sp)
 		}
 		gi := ex.initOnly[g]
 		if !ok || (gi != nil && !gi.ok && gi.why != "" && !strings.Contains(gi.why, "initialiser")) {
@@ -140,4 +146,31 @@ func rxpPkgDir(ctx *checkCtx, sp *RxpSpec) string {
 		}
 	}
 	return "."
+}
+
+// runtimeRegexpPattern runs the package's own initialiser and prints
+// VAR.String(): the pattern the code really compiles.
+func runtimeRegexpPattern(ctx *checkCtx, sp *RxpSpec) (string, bool) {
+	dir := scratch()
+	path := filepath.Join(dir, smtIdent("rxpat_"+sp.Name)+"_test.go")
+	v := strings.TrimPrefix(sp.Global, sp.Pkg+".")
+	src := fmt.Sprintf("package %s\n\nimport (\n\t\"fmt\"\n\t\"testing\"\n)\n\nfunc TestGvReplay(t *testing.T) {\n\tfmt.Printf(\"GV-REPLAY: HOLDS GV-PATTERN:%%q\\n\", %s.String())\n}\n", sp.Pkg, v)
+	if err := os.WriteFile(path, []byte(src), 0644); err != nil {
+		return "", false
+	}
+	defer os.Remove(path)
+	out, _ := runReplay(path, rxpPkgDir(ctx, sp))
+	k := strings.Index(out, "GV-PATTERN:")
+	if k < 0 {
+		return "", false
+	}
+	rest := out[k+len("GV-PATTERN:"):]
+	if e := strings.Index(rest, "\n"); e >= 0 {
+		rest = rest[:e]
+	}
+	pat, err := strconv.Unquote(strings.TrimSpace(rest))
+	if err != nil {
+		return "", false
+	}
+	return pat, true
 }
